@@ -13,8 +13,9 @@ def ek(k):
   return D.enc_key(k)
 
 class Gen:
-  def __init__(self, rng, cycles=False, focus=None, quirks=()):
+  def __init__(self, rng, cycles=False, focus=None, quirks=(), slices=False):
     self.r = rng
+    self.slices = slices          # also emit slice get / set / del (implementation side only: oracle-driven histories)
     self.cycles = cycles          # allow a reference to the target's own root / ancestor as the written value
     self.focus = focus            # optional set of op tags to prefer
     self.quirks = list(quirks)
@@ -133,12 +134,15 @@ class Gen:
     for t in nodes:
       k = D.kind_of(t[0])
       by_kind[min(k, 2)].append(t)
-    tags = sorted(D.LIST_OPS | D.DICT_OPS | D.OBJ_OPS | D.ANY_OPS)
+    slice_tags = D.SLICE_OPS
+    tags = sorted((set(range(1, 16)) | set(range(20, 29)) | D.OBJ_OPS | D.ANY_OPS))
     for _ in range(50):
       tag = r.choice(tags)
       if self.focus and r.random() < 0.7:
         tag = r.choice(sorted(self.focus))
-      pool = by_kind[1] if tag in D.LIST_OPS else by_kind[0] if tag in D.DICT_OPS else by_kind[2] if tag in D.OBJ_OPS else nodes
+      if self.slices and r.random() < 0.35:
+        tag = r.choice(sorted(slice_tags))
+      pool = by_kind[1] if (tag in D.LIST_OPS or tag in slice_tags) else by_kind[0] if tag in D.DICT_OPS else by_kind[2] if tag in D.OBJ_OPS else nodes
       if r.random() < 0.03:
         pool = nodes                     # wrong kind of target on purpose (not applicable)
       if not pool:
@@ -150,6 +154,11 @@ class Gen:
       tp = (ri, keys)
       V = lambda **kw: self.value(impl, tp, nodes, **kw)
       n = len(x) if isinstance(x, list) else 0
+      if tag in slice_tags:
+        bound = lambda: [] if r.random() < 0.3 else [r.randint(-n - 2, n + 2)]
+        sl = [bound(), bound(), [] if r.random() < 0.4 else [r.choice([1, 2, 3, -1, -2, -3])]]
+        if tag == D.LSETSLICE: return [tag, pos, sl, [V() for _ in range(r.choice([0, 1, 1, 2, 3]))]]
+        return [tag, pos, sl]
       if tag == D.LSET: return [tag, pos, self.index(n), V(missing=0.1)]
       if tag == D.LDEL: return [tag, pos, self.index(n)]
       if tag == D.LAPPEND: return [tag, pos, V(missing=0.05)]
